@@ -23,7 +23,8 @@ from harness.envs import ScriptedEnv, make_tag
 
 RULE = (
     "cases from one SplitMix64 stream: algorithm in PPO/A2C/DQN/SAC/TD3/DDPG; n_envs 1..4; on-policy n_steps 1..6, "
-    "batch_size 1..R+3, n_epochs 1..3, target_kl None/1e-9/1e-3/0.05; off-policy train_freq (1..5 steps | 1..2 episodes, "
+    "batch_size 1..R+3, n_epochs 1..3; PPO with target_kl in 1e-9..3e-2 (45% of PPO cases: >= 3 minibatches per epoch, "
+    "2..4 epochs, lr 3e-3..3e-2, per-minibatch KL recomputed through evaluate_actions / rollout_buffer.get); off-policy train_freq (1..5 steps | 1..2 episodes, "
     "one env), gradient_steps in {-1,0,1,2,3}, learning_starts in {0, random, exactly a rollout boundary, beyond the "
     "target}, TD3 policy_delay 1..3, SAC ent_coef auto/fixed; scripted episode ends; user lr schedules (5 shapes, "
     "recording), PPO clip schedules, DQN exploration schedule wrapped; 1..3 consecutive learn() calls with total "
@@ -162,17 +163,26 @@ def gen_case(rng, widen=False):
         R = n_envs * n_steps
         case.update({"n_envs": n_envs, "n_steps": n_steps})
         if algo == "PPO":
-            batch = rng.weighted([(rng.randint(1, R + 3), 5), (R, 1), (1, 1), (max(1, R - 1), 1)])
+            kl = rng.weighted([(None, 5.5), ("set", 4.5)])
+            if kl is not None:
+                # several minibatches per epoch so that the KL test can fire in the middle of an epoch
+                n_steps = rng.randint(3, 8)
+                R = n_envs * n_steps
+                case["n_steps"] = n_steps
+                kl = rng.choice([1e-9, 1e-7, 1e-6, 1e-5, 3e-5, 1e-4, 3e-4, 1e-3, 3e-3, 1e-2, 3e-2])
+                batch = rng.randint(1, max(1, R // 3))
+            else:
+                batch = rng.weighted([(rng.randint(1, R + 3), 5), (R, 1), (1, 1), (max(1, R - 1), 1)])
             case.update({
                 "batch_size": batch,
-                "n_epochs": rng.randint(1, 3),
-                "target_kl": rng.weighted([(None, 7), (1e-9, 1.5), (1e-3, 1), (0.05, 0.5)]),
+                "n_epochs": rng.randint(1, 3) if kl is None else rng.randint(2, 4),
+                "target_kl": kl,
                 "clip_sched": rng.choice(LR_SCHEDS + ["float"]),
                 "clip_vf": rng.weighted([(None, 2), ("sched", 2), ("const", 1)]),
             })
             case["norm_adv"] = bool(batch > 1 and R > 1 and rng.chance(0.6))
             if case["target_kl"] is not None:
-                case["lr_base"] = 2e-2
+                case["lr_base"] = rng.choice([3e-3, 1e-2, 3e-2])
         must_end = False
     else:
         unit = rng.weighted([("step", 7), ("episode", 3)])
@@ -352,6 +362,30 @@ def build(case, trace):
         model.actor.optimizer.register_step_pre_hook(hook("actor"))
         if getattr(model, "ent_coef_optimizer", None) is not None:
             model.ent_coef_optimizer.register_step_pre_hook(hook("ent"))
+    if algo == "PPO" and case["target_kl"] is not None:
+        import torch as th
+
+        orig_get = model.rollout_buffer.get
+        orig_eval = model.policy.evaluate_actions
+        pend = {}
+        thr = 1.5 * case["target_kl"]
+
+        def get_wrapper(batch_size=None):
+            for data in orig_get(batch_size):
+                pend["old"] = data.old_log_prob.detach().clone()
+                yield data
+
+        def eval_wrapper(obs, actions):
+            values, log_prob, entropy = orig_eval(obs, actions)
+            if "old" in pend:
+                with th.no_grad():
+                    log_ratio = log_prob.detach() - pend.pop("old")
+                    kl = th.mean((th.exp(log_ratio) - 1) - log_ratio).cpu().numpy()
+                trace.append(["kl", float(kl), bool(kl > thr)])
+            return values, log_prob, entropy
+
+        model.rollout_buffer.get = get_wrapper
+        model.policy.evaluate_actions = eval_wrapper
     if algo == "DQN":
         orig = model.exploration_schedule
 
@@ -475,19 +509,26 @@ def canon_call(case, rec):
             evs.append(["fin", e[1], bool(rec["stopped"])])
         elif t == "sc" and e[1] == "eps":
             evs.append(["eps", e[2]])
-        elif t in ("sc", "op"):
+        elif t in ("sc", "op", "kl"):
             j = i
-            grp = {"main": 0, "actor": 0, "ent": 0, "args": [], "lrs": [], "num": None}
-            while j < n and ((tr[j][0] == "sc" and tr[j][1] != "eps") or tr[j][0] == "op"):
+            grp = {"main": 0, "actor": 0, "ent": 0, "args": [], "lrs": [], "num": None, "kls": []}
+            while j < n and ((tr[j][0] == "sc" and tr[j][1] != "eps") or tr[j][0] in ("op", "kl")):
                 if tr[j][0] == "sc":
                     grp["args"].append(tr[j][2])
+                elif tr[j][0] == "kl":
+                    grp["kls"].append(bool(tr[j][2]))
                 else:
                     grp[tr[j][1]] += 1
                     grp["lrs"].extend(tr[j][2])
                 j += 1
             evs.append(["tr", grp])
-            if algo == "PPO" and case["target_kl"] is not None and steps and grp["main"] < full:
-                steps[-1][2] = grp["main"]
+            if algo == "PPO" and case["target_kl"] is not None and steps:
+                if grp["kls"]:
+                    # one flag per evaluated minibatch: "its own approximate KL exceeds 1.5 * target_kl"
+                    steps[-1][2] = grp["kls"]
+                elif grp["main"] < full:
+                    # the per-minibatch KL is not observable on this implementation: only the cut is
+                    steps[-1][2] = [False] * grp["main"] + [True]
             i = j
             continue
         i += 1
@@ -667,6 +708,26 @@ def oracle(ctx, case, recs):
                         viol("number of optimizer steps of an on-policy train() differs from epochs x minibatches",
                              "count_on", ci, step=k, seen=main, expected=exp)
                         return
+                    kls = [e for e in seg if e[0] == "kl"]
+                    if not exact and kls:
+                        # target_kl: the first minibatch whose OWN approximate KL exceeds 1.5*target_kl ends train()
+                        # before its optimizer step; all minibatches before it got theirs
+                        exceeded = [j for j, e in enumerate(kls) if e[2]]
+                        want = exceeded[0] if exceeded else exp
+                        nb = math.ceil(case["n_steps"] * n_envs / case["batch_size"])
+                        if exceeded and exceeded[0] % nb != 0:
+                            rep.count("ppo_kl_exit_mid_epoch")
+                        elif exceeded:
+                            rep.count("ppo_kl_exit_at_epoch_start")
+                        else:
+                            rep.count("ppo_kl_no_exit")
+                        if main != want:
+                            viol("PPO train() did not stop at the first minibatch whose KL exceeds 1.5 * target_kl",
+                                 "count_kl", ci, step=k, seen=main, expected=want, evaluated=len(kls),
+                                 kls=[e[1] for e in kls][:12], threshold=1.5 * case["target_kl"])
+                            return
+                    elif not exact:
+                        rep.count("ppo_kl_unobservable")
                 elif main:
                     viol("on-policy update in the middle of a rollout", "count_on", ci, step=k, seen=main)
                     return
@@ -829,8 +890,6 @@ def check_cases(ctx, cases):
             rep.count("steps", sum(1 for e in rec["trace"] if e[0] == "st"))
             rep.count("optimizer_steps", sum(1 for e in rec["trace"] if e[0] == "op"))
             rep.count("schedule_calls", sum(1 for e in rec["trace"] if e[0] == "sc"))
-            if any(s[2] is not None for s in canon_call(case, rec)[1]):
-                rep.count("ppo_kl_early_exit")
         rep.case(case, case if nontrivial(case, recs) else None)
         oracle(ctx, case, recs)
         o = model_ops(case, recs)
